@@ -9,7 +9,7 @@ import hashlib
 import json
 import os
 
-from vlib import runner, sut, std, cli, corpusio
+from vlib import runner, sut, std, cli, corpusio, fuzz
 from vlib.compare import first_value_diff
 from vlib.runner import Outcome, Report, Reject
 from gen import messages as gmsg, templates as gtemplates
@@ -274,6 +274,13 @@ def _k2(clause, f):
 SIGNATURES = {'nested_text_of_221_skipped_element': _k2}
 
 
+# ---- coverage-guided stage: the same generator and oracle, decisions taken from fuzzer bytes (vlib.fuzz) ----
+_fuzz_gen = gen('quick')
+
+
+fuzz_case = fuzz.structured_target(_fuzz_gen, check_case)
+
+
 def run(tier, seed):
     rep = Report(PID, tier, seed, 'exploration')
     rep.rule = ('C01/C07 messages (associated fields on elements and factors, quality / statistics / substituted attributes, 221, zero-count '
@@ -295,6 +302,7 @@ def run(tier, seed):
                          stage='command line')
     rep.required_classes = ['204', '221_skipped', 'zero_rep', 'bitmap', '222_qa', '224255', 'string_with_quote_or_backslash',
                             'string_with_8bit', 'string_with_blanks', 'compressed', 'uncompressed', 'corpus', 'cli']
+    fuzz.run_structured(rep, 'checks.c09', _fuzz_gen, tier)
     return rep.finish(SIGNATURES)
 
 
